@@ -195,7 +195,7 @@ def run_case(ctx, mr, case):
                 if raw != want:
                     ctx.diff('oracle', 'sd-raw-after-write', dict(case, path=p), want.hex()[:40], raw.hex()[:40], f'console-format bytes of {rel!r} are not the encryption of the view')
                 # the other ways PyFilesystem offers of reading and writing a file through the same view
-                for api in ('open', 'readbytes', 'writebytes', 'appendbytes', 'upload', 'download', 'writefile', 'hash', 'append-after-seek', 'appendtext'):
+                for api in ('open', 'readbytes', 'writebytes', 'appendbytes', 'upload', 'download', 'writefile', 'hash', 'append-after-seek', 'append-after-read', 'appendtext'):
                     ctx.stat('api_' + api)
                     try:
                         if api == 'open':
@@ -226,6 +226,16 @@ def run_case(ctx, mr, case):
                                 fh.seek(rng.choice([0, 0, 1, 16]))
                                 fh.write(more)
                             files[rel] = files[rel] + more
+                            got = base.readbytes(f'{id0}/{id1}{rel}')
+                        elif api == 'append-after-read':
+                            # ... also when a read (which leaves the wrapper with a cached cipher for that place) came in between
+                            more = pyenv.rbytes(rng, rng.choice([1, 16, 20, 33]))
+                            with fsview.openbin(p, 'a+') as fh:
+                                fh.seek(0)
+                                fh.read(rng.choice([1, 5, 16]))
+                                fh.write(more)
+                                fh.write(more[:3])
+                            files[rel] = files[rel] + more + more[:3]
                             got = base.readbytes(f'{id0}/{id1}{rel}')
                         elif api == 'appendtext':
                             # text mode is not offered; if it is refused nothing is written, if it is served the text arrives encrypted
@@ -304,6 +314,21 @@ def run_case(ctx, mr, case):
                     del files[r_]
             if api == 'movedir':
                 dirs = sorted({r_.rsplit('/', 1)[0] for r_ in files if r_.count('/') >= 2})
+        # "Nintendo DSiWare" is the one directory below ID1 whose files are not served; a file elsewhere whose NAME merely contains
+        # those words is a file like any other
+        for odd in ('/title/My Nintendo DSiWare list.txt', '/Nintendo DSiWare notes.bin'):
+            data = pyenv.rbytes(rng, 40)
+            ctx.stat('dsiware_like_names')
+            try:
+                top.makedirs(odd.rsplit('/', 1)[0] or '/', recreate=True)
+                top.writebytes(odd, data)
+                back = top.readbytes(odd)
+                raw = base.readbytes(f'{id0}/{id1}{odd}')
+                if back != data or raw != sd.sd_crypt(nk, odd, data):
+                    ctx.diff('oracle', 'sd-dsiware-like-name', dict(case, path=odd), data.hex()[:40], back.hex()[:40], f'{odd!r}: content / console-format bytes wrong')
+            except Exception as ex:
+                ctx.diff('oracle', 'sd-dsiware-like-name', dict(case, path=odd), 'written and read back', pyenv.errname(ex) + ': ' + str(ex)[:60],
+                         f'a file below ID1 whose name contains the words "Nintendo DSiWare" cannot be written / read: {pyenv.errname(ex)}')
         # text mode is not offered: asking for text never hands out the stored (encrypted) bytes as if they were the text
         for rel in list(files)[:1]:
             try:
